@@ -404,6 +404,8 @@ def cmp_c16_r(payload, impl, model):
             if not impl.startswith("err fault"):
                 return viol("reader failed at offset %d, strictly inside the %d-byte item, but the decoder returned %s" % (k, span, impl[:100]))
             return None
+    if payload.split("|")[1].split()[1] == "stopd":
+        return None   # data delivered together with the error: only the strictly-inside rule above applies
     if impl == pre:
         return None
     doclen = len(payload.split()[1]) // 2
@@ -428,12 +430,12 @@ PROPS["C16"] = dict(
     level_note="Trusted: Coq kernel, extraction, driver, harness; the sticky-writer behaviour (every writing Step returns the recorded error) is part of the hand-written encoder models and pinned by the enumeration. Reader faults are modelled as end-of-stream with a distinguished error. No axioms.",
     rule="wfault: document x write index x kind x mode; rfault: document x byte offset x mode; non-trivial = the fault position lies inside the document; distinct by payload",
     trusted_base=TB_COMMON,
-    assumptions=["a faulty Write returns (len, err), (len-1, nil) or (0, err); a faulty Read returns (0, err)"],
+    assumptions=["a faulty Write returns (len, err), (len-1, nil) or (0, err); a faulty Read returns (0, err), or (fail-stop only) the bytes before the fault together with the error; a transient error returned together with all the bytes a multi-byte read asked for is discarded by io.ReadAtLeast and is not counted as a failure of the reader"],
     suites=[
         ("wfault", dict(cmp=cmp_c16_w, nontrivial=lambda p, i, m: m.startswith("err"), shrink=False,
                         what="cbor.NewEncoder / json.NewEncoder over a fault-injecting io.Writer: for each document every Write index 1..n+1, kinds err/short/both, fail-stop and fail-once")),
         ("rfault", dict(cmp=cmp_c16_r, nontrivial=lambda p, i, m: "ok @" in m, shrink=False,
-                        what="cbor.NewDecoder / json.NewDecoder over a reader failing with a distinguished error at every byte offset, fail-stop and fail-once")),
+                        what="cbor.NewDecoder / json.NewDecoder over a reader failing with a distinguished error at every byte offset, fail-stop (announced alone or together with the last bytes delivered) and fail-once")),
     ],
 )
 
